@@ -49,7 +49,7 @@ def digestM (raw : Bool) : Bool → Val → UInt64
   | true, .scons h t => digestM raw false h + digestM raw true t
 
 def argsDigest (raw : Bool) (args : List Val) : UInt64 :=
-  args.foldl (fun h a => 31 * h + digestM raw false a) 7
+  args.foldl (fun h a => 31 * h + digestM raw false a) 12
 
 def tyFields : Ty → List Ty
   | .fcons t r => t :: tyFields r
